@@ -196,6 +196,12 @@ func TestCheck(t *testing.T) {
 			synctest.Test(t, func(t *testing.T) { broadcastCase(c, ns) })
 		})
 	}
+	for _, m := range []mode{failover, failtry} {
+		m := m
+		r.Case("backoff/"+m.String(), func(c *h.Case) {
+			synctest.Test(t, func(t *testing.T) { backoffCase(c, m) })
+		})
+	}
 	r.Case("concurrent-callers", func(c *h.Case) {
 		synctest.Test(t, func(t *testing.T) { concurrentCase(c) })
 	})
@@ -600,6 +606,63 @@ func concurrentCase(c *h.Case) {
 				}
 			}
 			r.Distinct(fmt.Sprintf("conc|%s|%d", m, ns))
+		}
+	}
+}
+
+// backoffCase: intervals other than the defaults, chosen so that the back-off reaches its cap
+// well within the retry budget. The budget must still be honoured (retry+1 attempts) and the
+// pause before attempt k must be min(k*minInterval, maxInterval) (failtry) resp.
+// min((k-servers)*minInterval, maxInterval), not negative (failover), in virtual time.
+func backoffCase(c *h.Case, m mode) {
+	r := c.R
+	for _, iv := range [][2]time.Duration{{100 * time.Millisecond, 250 * time.Millisecond}, {time.Second, time.Second}, {300 * time.Millisecond, 100 * time.Millisecond}, {time.Millisecond, 5 * time.Second}} {
+		for _, retry := range []int{0, 1, 3, 6, 9} {
+			for _, ns := range []int{1, 2, 3} {
+				for _, perCall := range []bool{false, true} {
+					var cfg cluster.Config
+					planned := retry
+					if perCall {
+						planned = 50 // the per-call budget below overrides it
+					}
+					if m == failover {
+						cfg = cluster.FailoverConfig(cluster.WithRetry(planned), cluster.WithIdempotent(true), cluster.WithMinInterval(iv[0]), cluster.WithMaxInterval(iv[1]))
+					} else {
+						cfg = cluster.FailtryConfig(cluster.WithRetry(planned), cluster.WithIdempotent(true), cluster.WithMinInterval(iv[0]), cluster.WithMaxInterval(iv[1]))
+					}
+					client := core.NewClient(urlsAll[:ns]...)
+					sc := newScript(func(call string, no int, u string) (byte, time.Duration) { return 'E', 0 })
+					client.Use(cluster.New(cfg), sc.handler)
+					ro := -1
+					if perCall {
+						ro = retry
+					}
+					done := make(chan struct{})
+					go func() {
+						defer close(done)
+						invoke(client, "bk", callCfg{0, ro})
+					}()
+					// an unbounded retry loop would never end: bound the wait in virtual time
+					select {
+					case <-done:
+					case <-time.After(time.Hour):
+					}
+					sc.mu.Lock()
+					at := append([]attempt(nil), sc.attempts["bk"]...)
+					sc.mu.Unlock()
+					r.Eval(1)
+					rep := map[string]interface{}{"mode": m.String(), "servers": ns, "retry": retry, "per_call_budget": perCall, "min_interval": iv[0].String(), "max_interval": iv[1].String(), "attempts": fmtAttempts(at)}
+					if len(at) != retry+1 {
+						kind := "too-many-attempts"
+						if len(at) < retry+1 {
+							kind = "too-few-attempts"
+						}
+						c.Violation(kind+":backoff:"+m.String(), fmt.Sprintf("retry=%d (per call: %v), intervals %v..%v, %d servers: expected %d attempts, observed %d", retry, perCall, iv[0], iv[1], ns, retry+1, len(at)), rep)
+						continue
+					}
+					r.Distinct(fmt.Sprintf("backoff|%s|%v|%d|%d|%v", m, iv, retry, ns, perCall))
+				}
+			}
 		}
 	}
 }
